@@ -7,8 +7,10 @@ import (
 	"fmt"
 	"io/fs"
 	"os"
+	"runtime"
 	"sort"
 	"strings"
+	"sync"
 	"syscall"
 	"testing"
 
@@ -262,5 +264,72 @@ func TestVerifC11Sysctl(t *testing.T) {
 	}
 	if seam == 0 {
 		r.Capped("the sysctl functions no longer go through os.ReadFile/os.WriteFile in interface_linux.go: the file seam is bypassed and this part decides nothing")
+	}
+}
+
+// C11 `sysctlrace`: the same setter and getter, free-running under the race detector: two
+// advertising interfaces are re-initialised at once (one restores 1 while the other
+// disables), as two Dialers of one daemon do. The race detector's reports gate the verdict
+// (the driver attributes a report to the code under test by its frames); the values that
+// end up in the scripted tree are checked as well.
+func TestVerifC11SysctlRace(t *testing.T) {
+	r := ev.Begin("C11", "sysctlrace")
+	defer r.End(t)
+	r.Rule = "free-running -race pass: 2 goroutines x 2000 rounds, each setting its own interface's autoconf switch (eth0: 1,0,1,...; eth1: 0,1,0,...) through the real system.NewState() over a scripted tree whose write hook copies the bytes it is handed; oracle: race detector silent on the code under test, and after every set the interface's own file holds the value just written; non-trivial = every round"
+	defer VerifSetFiles(nil, nil)
+	var mu sync.Mutex
+	files := map[string]string{}
+	VerifSetFiles(func(name string) ([]byte, error) {
+		mu.Lock()
+		defer mu.Unlock()
+		v, ok := files[name]
+		if !ok {
+			return nil, &fs.PathError{Op: "open", Path: name, Err: syscall.ENOENT}
+		}
+		return []byte(v + "\n"), nil
+	}, func(name string, data []byte, _ os.FileMode) error {
+		// like the kernel: the bytes are read when the write is made, some time after
+		// the caller prepared them
+		runtime.Gosched()
+		v := strings.TrimSpace(string(data))
+		mu.Lock()
+		files[name] = v
+		mu.Unlock()
+		return nil
+	})
+	st := NewState()
+	var wg sync.WaitGroup
+	var bmu sync.Mutex
+	var problems []string
+	for _, ifn := range []string{"eth0", "eth1"} {
+		files[vfsPath(ifn, "autoconf")] = "1"
+	}
+	for gi, ifn := range []string{"eth0", "eth1"} {
+		wg.Add(1)
+		go func() {
+			defer wg.Done()
+			for k := 0; k < 2000; k++ {
+				want := (k+gi)%2 == 0
+				if err := st.SetIPv6Autoconf(ifn, want); err != nil {
+					bmu.Lock()
+					problems = append(problems, fmt.Sprintf("%s round %d: %v", ifn, k, err))
+					bmu.Unlock()
+					return
+				}
+				got, err := st.IPv6Autoconf(ifn)
+				if err != nil || got != want {
+					bmu.Lock()
+					if len(problems) < 5 {
+						problems = append(problems, fmt.Sprintf("SetIPv6Autoconf(%s, %t) while the other interface is being set: the interface's switch then reads %t (%v)", ifn, want, got, err))
+					}
+					bmu.Unlock()
+				}
+			}
+		}()
+	}
+	wg.Wait()
+	r.Case("two interfaces set concurrently, 2000 rounds", true)
+	for _, p := range problems {
+		r.Violation("C11:sysctl:concurrent-interfaces", p, nil)
 	}
 }
